@@ -18,9 +18,18 @@
 // The part after " | " is the oracle table for the model: every call the library made to validator k
 // (recorded by a wrapper around the real functor) and the answers of cppcms::encoding::valid /
 // validate_or_filter for the input and both outputs.
+// For an encoding that is not ASCII compatible (A=0) the library converts to UTF-8, runs the UTF-8 pipeline with
+// replacement character 0 and converts back; then
+//   U=<texthex>:<stop ok 0|1>:<to_utf stop hex>:<to_utf skip hex>,..   for the input and both outputs
+//   E=...                                 valid("UTF-8",.) / validate_or_filter("UTF-8",.,0) of the converted texts
+//   S=<k>:<schemehex>:<0|1>,..   answers of the scheme regular expression of URI validator k (the URI parser itself is modelled)
+//   V=<utf8hex>:<ok 0|1>:<from_utf stop hex>,..  for the UTF-8 text that the library converts back; that text is
+//                                         obtained from the library itself: filter() of the converted input under the
+//                                         same rules with encoding UTF-8.
 #include <cppcms/xss.h>
 #include <cppcms/encoding.h>
 #include <booster/regex.h>
+#include <booster/locale/encoding.h>
 #include <map>
 #include <set>
 #include <memory>
@@ -32,17 +41,39 @@ namespace xss = cppcms::xss;
 
 typedef std::set<std::pair<int,std::pair<std::string,bool> > > log_type;
 static log_type *g_log = 0;
+static log_type *g_slog = 0;   // (validator, scheme range, answer of the scheme regular expression)
 
 struct logging_validator {
 	int id;
 	xss::rules::validator_type inner;
+	bool has_scheme_re;
+	booster::regex scheme_re;
 	bool operator()(char const *b,char const *e) const
 	{
 		bool r = inner(b,e);
 		if(g_log) g_log->insert(std::make_pair(id,std::make_pair(std::string(b,e),r)));
+		if(g_slog && has_scheme_re) {
+			// the answers of the scheme regular expression that the model of uri_validator_functor may ask for:
+			// on the lexical scheme prefix ALPHA *( ALPHA / DIGIT / + - . ) of the value and on the empty range
+			char const *p=b;
+			if(p!=e && (('a'<=*p && *p<='z') || ('A'<=*p && *p<='Z'))) {
+				p++;
+				while(p!=e && (('a'<=*p && *p<='z') || ('A'<=*p && *p<='Z') || ('0'<=*p && *p<='9') || *p=='+' || *p=='-' || *p=='.'))
+					p++;
+			}
+			g_slog->insert(std::make_pair(id,std::make_pair(std::string(b,p),booster::regex_match(b,p,scheme_re))));
+			g_slog->insert(std::make_pair(id,std::make_pair(std::string(),booster::regex_match(b,b,scheme_re))));
+		}
 		return r;
 	}
 };
+static bool scheme_of_spec(std::string const &spec,std::string &re)
+{
+	if(spec=="uri") { re="(http|https|ftp|mailto|news|nntp)"; return true; }
+	if(spec.compare(0,5,"uris:")==0) { re=spec.substr(5); return true; }
+	if(spec.compare(0,4,"abs:")==0) { re=spec.substr(4); return true; }
+	return false;
+}
 struct plain_regex {
 	booster::regex r;
 	bool operator()(char const *b,char const *e) const { return booster::regex_match(b,e,r); }
@@ -63,7 +94,7 @@ static std::vector<std::string> split_on(std::string const &s,char c)
 }
 
 struct ruleset {
-	xss::rules logged, plain;
+	xss::rules logged, plain, u8;
 	std::string enc;
 	bool ok;
 	std::string err;
@@ -98,16 +129,16 @@ static std::shared_ptr<ruleset> build(std::map<std::string,std::string> &f)
 	std::shared_ptr<ruleset> rs(new ruleset());
 	rs->ok=true;
 	try {
-		xss::rules *both[2]={&rs->logged,&rs->plain};
+		xss::rules *both[3]={&rs->logged,&rs->plain,&rs->u8};
 		std::vector<std::string> funs=split_on(f["fun"],',');
 		for(size_t i=0;i<funs.size();i++) funs[i]=unhex(funs[i]);
-		for(int w=0;w<2;w++) {
+		for(int w=0;w<3;w++) {
 			xss::rules &r=*both[w];
 			// mode first: add_tag / add_entity / add_property go to the holder of the current mode
 			r.html(f["m"]=="h" ? xss::rules::html_input : xss::rules::xhtml_input);
 			r.comments_allowed(f["c"]=="1");
 			r.numeric_entities_allowed(f["n"]=="1");
-			if(f["enc"]!="-" && !f["enc"].empty()) r.encoding(f["enc"]);
+			if(f["enc"]!="-" && !f["enc"].empty()) r.encoding(w==2 ? std::string("UTF-8") : f["enc"]);
 			std::vector<std::string> ents=split_on(f["ent"],',');
 			for(size_t i=0;i<ents.size();i++) r.add_entity(unhex(ents[i]));
 			std::vector<std::string> tags=split_on(f["tags"],';');
@@ -129,8 +160,11 @@ static std::shared_ptr<ruleset> build(std::map<std::string,std::string> &f)
 					else if(vk[0]=='f') {
 						size_t k=atoi(vk.c_str()+1);
 						if(k>=funs.size()) throw std::runtime_error("bad fun index");
-						if(w==0) {
+						if(w!=1) {
 							logging_validator lv; lv.id=int(k); lv.inner=make_validator(funs[k]);
+							std::string sre;
+							lv.has_scheme_re=scheme_of_spec(funs[k],sre);
+							if(lv.has_scheme_re) lv.scheme_re=booster::regex(sre);
 							r.add_property(name,an,xss::rules::validator_type(lv));
 						}
 						else add_plain(r,name,an,funs[k]);
@@ -164,11 +198,11 @@ int main()
 		if(!rs->ok) { std::cout<<"BAD-RULES "<<rs->err<<"\n"; continue; }
 		std::string in=unhex(f["in"]);
 		char repl=char(atoi(f["repl"].c_str()));
-		log_type log;
+		log_type log,slog;
 		std::string diff;
 		try {
 			char const *b=in.c_str(), *e=b+in.size();
-			g_log=&log;
+			g_log=&log; g_slog=&slog;
 			bool val=xss::validate(b,e,rs->logged);
 			std::string o_rm, o_es;
 			bool fl_rm=xss::validate_and_filter_if_invalid(b,e,rs->logged,o_rm,xss::remove_invalid,repl);
@@ -182,7 +216,7 @@ int main()
 				diff+=" PATHS-DIFFER:filter-string-overload";
 			bool vrm=xss::validate(rm.c_str(),rm.c_str()+rm.size(),rs->logged);
 			bool ves=xss::validate(es.c_str(),es.c_str()+es.size(),rs->logged);
-			g_log=0;
+			g_log=0; g_slog=0;
 			// same through the rule set registered with the convenience overloads
 			if(xss::validate(b,e,rs->plain)!=val || xss::filter(in,rs->plain,xss::remove_invalid,repl)!=rm
 			   || xss::filter(in,rs->plain,xss::escape_invalid,repl)!=es)
@@ -194,9 +228,10 @@ int main()
 				if(!first) out<<","; first=false;
 				out<<p->first<<":"<<hex(p->second.first)<<":"<<b01(p->second.second);
 			}
-			out<<" E=";
-			if(rs->enc.empty()) out<<"-";
-			else {
+			bool compat = rs->enc.empty() || cppcms::encoding::is_ascii_compatible(rs->enc);
+			std::ostringstream etab,utab,vtab;
+			if(rs->enc.empty()) etab<<"-";
+			else if(compat) {
 				std::set<std::string> texts; texts.insert(in); texts.insert(rm); texts.insert(es);
 				first=true;
 				for(std::set<std::string>::const_iterator p=texts.begin();p!=texts.end();++p) {
@@ -204,13 +239,60 @@ int main()
 					bool ev=cppcms::encoding::valid(rs->enc,p->c_str(),p->c_str()+p->size(),cnt);
 					std::string fo;
 					bool vof=cppcms::encoding::validate_or_filter(rs->enc,p->c_str(),p->c_str()+p->size(),fo,repl);
-					if(!first) out<<","; first=false;
-					out<<hex(*p)<<":"<<b01(ev)<<":"<<b01(vof)<<":"<<(vof?std::string("-"):hex(fo));
+					if(!first) etab<<","; first=false;
+					etab<<hex(*p)<<":"<<b01(ev)<<":"<<b01(vof)<<":"<<(vof?std::string("-"):hex(fo));
 				}
+			}
+			else {
+				namespace conv = booster::locale::conv;
+				std::set<std::string> texts; texts.insert(in); texts.insert(rm); texts.insert(es);
+				std::set<std::string> u8texts;
+				std::string win;
+				first=true;
+				for(std::set<std::string>::const_iterator p=texts.begin();p!=texts.end();++p) {
+					std::string st,sk; bool ok=true;
+					try { st=conv::to_utf<char>(p->c_str(),p->c_str()+p->size(),rs->enc,conv::stop); }
+					catch(conv::conversion_error const &) { ok=false; }
+					sk=conv::to_utf<char>(p->c_str(),p->c_str()+p->size(),rs->enc,conv::skip);
+					if(!first) utab<<","; first=false;
+					utab<<hex(*p)<<":"<<b01(ok)<<":"<<hex(st)<<":"<<hex(sk);
+					if(ok) u8texts.insert(st);
+					if(*p==in) { win = ok ? st : sk; u8texts.insert(win); }
+				}
+				first=true;
+				for(std::set<std::string>::const_iterator p=u8texts.begin();p!=u8texts.end();++p) {
+					size_t cnt=0;
+					bool ev=cppcms::encoding::valid("UTF-8",p->c_str(),p->c_str()+p->size(),cnt);
+					std::string fo;
+					bool vof=cppcms::encoding::validate_or_filter("UTF-8",p->c_str(),p->c_str()+p->size(),fo,0);
+					if(!first) etab<<","; first=false;
+					etab<<hex(*p)<<":"<<b01(ev)<<":"<<b01(vof)<<":"<<(vof?std::string("-"):hex(fo));
+				}
+				// the UTF-8 text that is converted back, from the library itself
+				std::set<std::string> f8;
+				f8.insert(xss::filter(win,rs->u8,xss::remove_invalid,0));
+				f8.insert(xss::filter(win,rs->u8,xss::escape_invalid,0));
+				first=true;
+				for(std::set<std::string>::const_iterator p=f8.begin();p!=f8.end();++p) {
+					std::string back; bool ok=true;
+					try { back=conv::from_utf<char>(*p,rs->enc,conv::stop); }
+					catch(conv::conversion_error const &) { ok=false; }
+					if(!first) vtab<<","; first=false;
+					vtab<<hex(*p)<<":"<<b01(ok)<<":"<<hex(back);
+				}
+			}
+			out<<" E="<<(etab.str().empty()?std::string("-"):etab.str())<<" A="<<b01(compat)
+			   <<" U="<<(utab.str().empty()?std::string("-"):utab.str())<<" V="<<(vtab.str().empty()?std::string("-"):vtab.str());
+			out<<" S=";
+			if(slog.empty()) out<<"-";
+			first=true;
+			for(log_type::const_iterator p=slog.begin();p!=slog.end();++p) {
+				if(!first) out<<","; first=false;
+				out<<p->first<<":"<<hex(p->second.first)<<":"<<b01(p->second.second);
 			}
 		}
 		catch(std::exception const &e) {
-			g_log=0;
+			g_log=0; g_slog=0;
 			out.str("");
 			out<<"EXCEPTION "<<e.what();
 		}
